@@ -34,8 +34,9 @@ def _root(t):
     return t.id if isinstance(t, ast.Name) else None
 
 
-def obligations(funcs, prefix, what):
-    """funcs: [(qualified name, function)] -> [{id, holds, detail}]"""
+def obligations(funcs, prefix, what, protected=None):
+    """funcs: [(qualified name, function)] -> [{id, holds, detail}].  protected(param name) -> bool restricts the parameters whose state must not be modified
+    (default: every parameter but self / cls); accumulator parameters of helper functions are then left alone."""
     out = []
     for name, f in funcs:
         try:
@@ -44,13 +45,16 @@ def obligations(funcs, prefix, what):
             continue
         params = {a.arg for a in tree.args.args + tree.args.kwonlyargs}
         aliases = set(params) - {"self", "cls"}
+        if protected is not None:
+            aliases = {a for a in aliases if protected(a)}
         changed = True
         while changed:
             changed = False
             for n in ast.walk(tree):
                 new = set()
                 if isinstance(n, ast.Assign) and (is_alias_expr(n.value) or (isinstance(n.value, ast.Name) and n.value.id in aliases)):
-                    if isinstance(n.value, ast.Name) or _root(n.value) in aliases or _root(n.value) == "self" or isinstance(n.value, (ast.IfExp, ast.BoolOp, ast.Call)):
+                    self_rooted = _root(n.value) == "self" and (protected is None or any(isinstance(x, ast.Attribute) and protected(x.attr) for x in ast.walk(n.value)))
+                    if isinstance(n.value, ast.Name) or _root(n.value) in aliases or self_rooted or (isinstance(n.value, (ast.IfExp, ast.BoolOp, ast.Call)) and protected is None):
                         new = {t.id for t in n.targets if isinstance(t, ast.Name)}
                 if isinstance(n, (ast.For, ast.comprehension)) and isinstance(n.target, ast.Name):
                     new = {n.target.id}
@@ -68,6 +72,22 @@ def obligations(funcs, prefix, what):
         def live(name, lineno):
             return name in aliases and not (name in fresh_from and lineno > fresh_from[name])
         bad = []
+        if protected is not None:
+            def through_protected(t):
+                return _root(t) == "self" and any(isinstance(x, ast.Attribute) and protected(x.attr) for x in ast.walk(t))
+            for n in ast.walk(tree):
+                tg = []
+                if isinstance(n, (ast.Assign, ast.Delete)):
+                    tg = [t for t in n.targets if isinstance(t, (ast.Attribute, ast.Subscript))]
+                elif isinstance(n, ast.AugAssign) and isinstance(n.target, (ast.Attribute, ast.Subscript)):
+                    tg = [n.target]
+                elif isinstance(n, ast.Call) and isinstance(n.func, ast.Attribute) and n.func.attr in MUTATORS:
+                    tg = [n.func.value]
+                for t in tg:
+                    # `self.schema = schema` in a constructor binds, it does not modify: only stores THROUGH a protected attribute count
+                    inner = t.value if isinstance(t, (ast.Attribute, ast.Subscript)) and not isinstance(n, ast.Call) else t
+                    if through_protected(inner):
+                        bad.append("line %d: %s" % (n.lineno, ast.unparse(n)[:60]))
         for n in ast.walk(tree):
             if isinstance(n, ast.AugAssign):
                 if isinstance(n.target, ast.Name) and live(n.target.id, n.lineno) and isinstance(n.op, (ast.Add, ast.BitOr)):
@@ -76,6 +96,9 @@ def obligations(funcs, prefix, what):
                     bad.append("line %d: %s" % (n.lineno, ast.unparse(n)))
             if isinstance(n, ast.Call) and isinstance(n.func, ast.Attribute) and n.func.attr in MUTATORS and isinstance(n.func.value, ast.Name) and live(n.func.value.id, n.lineno):
                 bad.append("line %d: %s" % (n.lineno, ast.unparse(n)[:60]))
+            if isinstance(n, ast.Call) and isinstance(n.func, ast.Attribute) and n.func.attr in MUTATORS and isinstance(n.func.value, (ast.Attribute, ast.Subscript)) \
+                    and _root(n.func.value) is not None and live(_root(n.func.value), n.lineno):
+                bad.append("line %d: %s" % (n.lineno, ast.unparse(n)[:60]))       # x.attr.append(...) on state reachable from an argument
             if isinstance(n, (ast.Assign, ast.Delete)):
                 for t in n.targets:
                     if isinstance(t, (ast.Attribute, ast.Subscript)) and live(_root(t), n.lineno):
